@@ -136,6 +136,15 @@ type FuncSpec struct {
 	// and an out-parameter argument `x[n:]` is written back with GoX.setSliceFrom.
 	SliceAlias bool
 	TypeSwitch bool // `switch v := x.(type) { case T: .. }` -> match chain over the model's `(x).as_T : Option _` views (first matching case wins, as in Go)
+	// ---- endpoint-layer extensions (C05); each one only acts when its field is set
+	GenMethods  map[string]string // method name -> translated function of this group: recv.M(args) -> (F now recv args)
+	KeepParents []string          // sentinels whose `.WithParent(S)` wrapping is kept: oidc.ErrX().WithParent(S) -> "ErrX<S" (errors.Is can see S)
+	ErrNilConst bool              // `err == nil` / `err != nil` used as a VALUE: true / false as the enclosing match branch says
+	TupleInit   bool              // `if a, b, ok := f(); COND {..}` (several plain results scoped to the if) and `if a, b, ok = f(); COND {..}` (hoisted assignment)
+	// HandlerEnd (RetResp): a response-writing call that is the last statement executed (end of the handler body reached) leaves the
+	// handler; `return func(w, r) {..}` is the handler itself; `f(a)(w, r)` passes a's arguments before the request's
+	HandlerEnd bool
+	OkWrites   map[string]string // HandlerEnd: `if err := f(w, ..); err != nil { WRITE }` at the end of a handler, f writes the response itself on success: f -> constructor applied to what f wrote
 }
 
 // StructLit: `&pkg.T{K: V, ...}` becomes `({ K := V, ... } : Lean)`, restricted to the fields in Keep.
@@ -346,6 +355,38 @@ func errChain(e ast.Expr) string {
 	}
 }
 
+// errChainP: errChain, plus the kept parent sentinel (spec.KeepParents): oidc.ErrX().WithParent(S) -> "ErrX<S"
+func (t *tr) errChainP(e ast.Expr) string {
+	n := errChain(e)
+	if n == "" || len(t.spec.KeepParents) == 0 {
+		return n
+	}
+	cur := e
+	for {
+		c, ok := cur.(*ast.CallExpr)
+		if !ok {
+			return n
+		}
+		sel, ok := c.Fun.(*ast.SelectorExpr)
+		if !ok {
+			return n
+		}
+		if sel.Sel.Name == "WithParent" && len(c.Args) == 1 {
+			if id, ok := c.Args[0].(*ast.Ident); ok {
+				for _, kp := range t.spec.KeepParents {
+					if kp == id.Name {
+						return n + "<" + id.Name
+					}
+				}
+			}
+		}
+		cur = sel.X
+	}
+}
+
+// handlerEndMarker: the (not yet judged) end of a handler body (spec.HandlerEnd); any occurrence left in the output is unsupported
+const handlerEndMarker = "UNSUPPORTED_handler_ends_without_response"
+
 // ErrXyz (not `Error`)
 func isErrCtor(n string) bool {
 	return strings.HasPrefix(n, "Err") && len(n) > 3 && n[3] >= 'A' && n[3] <= 'Z'
@@ -485,6 +526,15 @@ func (t *tr) expr(e ast.Expr) string {
 			}
 			if x.Op == token.EQL {
 				return "(GoX.errIsNil " + a + ")"
+			}
+		}
+		// `err == nil` as a value: the enclosing match branch knows it
+		if bi, ok := x.Y.(*ast.Ident); ok && bi.Name == "nil" && t.spec.ErrNilConst {
+			if ei, ok := x.X.(*ast.Ident); ok && ei.Name == "err" && (x.Op == token.EQL || x.Op == token.NEQ) {
+				if (x.Op == token.EQL) != t.errInScope {
+					return "true"
+				}
+				return "false"
 			}
 		}
 		// comparisons with nil
@@ -743,7 +793,7 @@ func (t *tr) argsOf(callee string, as []ast.Expr) string {
 }
 
 func (t *tr) call(c *ast.CallExpr) string {
-	if n := errChain(c); n != "" {
+	if n := t.errChainP(c); n != "" {
 		return leanStr(n)
 	}
 	fun := c.Fun
@@ -861,6 +911,12 @@ func (t *tr) call(c *ast.CallExpr) string {
 			return "(" + m + " now " + a + ")"
 		}
 		recv := t.expr(sel.X)
+		if gf, ok := t.spec.GenMethods[m]; ok {
+			if a := t.args(c.Args); a != "" {
+				return "(" + gf + " now " + recv + " " + a + ")"
+			}
+			return "(" + gf + " now " + recv + ")"
+		}
 		if identityMethods[m] && len(c.Args) == 0 {
 			return recv
 		}
@@ -944,6 +1000,11 @@ func (t *tr) errValue(e ast.Expr) string {
 		case "errors.Join":
 			if len(x.Args) >= 1 {
 				return t.errValue(x.Args[0]) // the first joined error is the sentinel
+			}
+		}
+		if len(t.spec.KeepParents) > 0 {
+			if n := t.errChainP(x); n != "" {
+				return leanStr(n)
 			}
 		}
 		// oidc.ErrInvalidRequest().WithDescription(...)  ->  "ErrInvalidRequest"
@@ -1094,6 +1155,16 @@ func (t *tr) ret0(r *ast.ReturnStmt) string {
 	}
 	if t.spec.Ret == RetVal && len(r.Results) == 0 && t.spec.RetParam != "" {
 		return t.spec.RetParam
+	}
+	if t.spec.Ret == RetResp && t.spec.HandlerEnd && len(r.Results) == 1 && !t.inClosure {
+		if fl, ok := r.Results[0].(*ast.FuncLit); ok {
+			// return func(w, r) {..}: the handler this function builds
+			t.inClosure = true
+			t.declareFields(fl.Type.Params)
+			body := t.block(fl.Body.List, nil)
+			t.inClosure = false
+			return body
+		}
 	}
 	if t.spec.Ret == RetResp {
 		return t.bad("return without a written response", r)
@@ -1321,6 +1392,9 @@ func (t *tr) block(stmts []ast.Stmt, k cont) string {
 			if t.spec.Ret == RetVal && t.spec.RetParam != "" {
 				return t.spec.RetParam // void function: its effect is the final value of the pointer parameter
 			}
+			if t.spec.Ret == RetResp && t.spec.HandlerEnd {
+				return handlerEndMarker // reaching the end of a handler body: legitimate only right after a response-writing call
+			}
 			return t.bad("fallthrough without return", nil)
 		}
 		return k()
@@ -1407,6 +1481,13 @@ func (t *tr) block(stmts []ast.Stmt, k cont) string {
 					if r, ok := stmts[1].(*ast.ReturnStmt); ok && len(r.Results) == 0 {
 						leaves = true
 					}
+				}
+				if !leaves && t.spec.HandlerEnd && rest() == handlerEndMarker {
+					leaves = true // nothing is executed after the call (end of a switch case / of the handler body)
+				}
+				if inner, isCurried := c.Fun.(*ast.CallExpr); isCurried && leaves && t.spec.HandlerEnd && t.loop == 0 {
+					// f(a)(w, r): the handler f builds, applied to the request
+					return "(" + ctor + " " + strings.TrimSpace(t.args(inner.Args)+" "+t.args(c.Args)) + ")"
 				}
 				if !leaves {
 					return t.bad("response written without leaving the handler", x)
@@ -1776,7 +1857,36 @@ func (t *tr) block(stmts []ast.Stmt, k cont) string {
 					okBranch = t.elseBranch(x.Else, cont)
 				}
 				t.indent--
+				if call, isCall := as.Rhs[0].(*ast.CallExpr); isCall && t.spec.HandlerEnd && okBranch == handlerEndMarker {
+					if ctor, has := t.spec.OkWrites[exprString(call.Fun)]; has {
+						// the callee itself wrote the response when it returned nil (its Lean twin yields what was written)
+						return "(match " + t.expr(as.Rhs[0]) + " with\n" + t.pad() + "| .error err => " + errBranch + "\n" + t.pad() + "| .ok written__ =>\n" + t.pad() + "(" + ctor + " written__))"
+					}
+				}
 				return "(match " + t.expr(as.Rhs[0]) + " with\n" + t.pad() + "| " + t.wpat(as.Rhs[0], ".error err") + " => " + errBranch + "\n" + t.pad() + "| " + t.wpat(as.Rhs[0], ".ok "+t.okPattern(as.Rhs[0], "_")) + " =>\n" + t.pad() + t.takePost() + okBranch + ")"
+			}
+			// if a, b, ok = f(); COND { body }   (assignment to function-level variables): the assignment as a statement, then the plain if
+			if ok && t.spec.TupleInit && len(as.Lhs) > 2 && len(as.Rhs) == 1 && as.Tok == token.ASSIGN && exprString(as.Lhs[len(as.Lhs)-1]) != "err" {
+				if _, isCall := as.Rhs[0].(*ast.CallExpr); isCall {
+					y := *x
+					y.Init = nil
+					return t.block(append([]ast.Stmt{as, &y}, stmts[1:]...), k)
+				}
+			}
+			// if a, b, ok := f(); COND { body }   (several plain results, scoped to the if statement)
+			if ok && t.spec.TupleInit && len(as.Lhs) >= 2 && len(as.Rhs) == 1 && as.Tok == token.DEFINE && exprString(as.Lhs[len(as.Lhs)-1]) != "err" && x.Else == nil {
+				if call, isCall := as.Rhs[0].(*ast.CallExpr); isCall && !ignorableCall(call) && !t.isWriterCall(call) {
+					var names []string
+					for _, l := range as.Lhs {
+						names = append(names, t.ident(exprString(l)))
+						t.declared[exprString(l)] = true
+					}
+					bind := "let (" + strings.Join(names, ", ") + ") := " + t.expr(call) + "; "
+					t.indent++
+					thenB := t.block(x.Body.List, cont)
+					t.indent--
+					return "(if (" + bind + t.expr(x.Cond) + ") then\n" + t.pad() + "  " + bind + thenB + "\n" + t.pad() + "else\n" + t.pad() + cont() + ")"
+				}
 			}
 			// if v := e; cond(v) { body }      (v is scoped to the if statement)
 			if ok && len(as.Lhs) == 1 && len(as.Rhs) == 1 && as.Tok == token.DEFINE && exprString(as.Lhs[0]) != "err" && x.Else == nil && !t.isWriterCall(as.Rhs[0]) {
@@ -2192,6 +2302,9 @@ func translateFunc(fset *token.FileSet, fd *ast.FuncDecl, spec *FuncSpec) (strin
 	}
 	inits := t.initResults(fd) // "" unless spec.InitResults (translate_ext.go)
 	body := t.block(fd.Body.List, k)
+	if strings.Contains(body, handlerEndMarker) {
+		t.unsup = append(t.unsup, "a path reaches the end of the handler without writing a response")
+	}
 	body = inits + body
 	pos := fset.Position(fd.Pos())
 	var b strings.Builder
